@@ -73,6 +73,11 @@ func Reset() { rf = nil; cursor = 0 }
 
 func U64(name string) uint64 { v, _ := strconv.ParseUint(next(name, "u64"), 10, 64); return v }
 func U32(name string) uint32 { v, _ := strconv.ParseUint(next(name, "u32"), 10, 32); return uint32(v) }
+// NatU64/NatU32 are like U64/U32 but encoded as mathematical integers: use them
+// for values that are only compared and formatted (decimal digits), not
+// bit-manipulated.
+func NatU64(name string) uint64 { return U64(name) }
+func NatU32(name string) uint32 { return U32(name) }
 func U8(name string) uint8   { v, _ := strconv.ParseUint(next(name, "u8"), 10, 8); return uint8(v) }
 func I32(name string) int32  { v, _ := strconv.ParseInt(next(name, "i32"), 10, 32); return int32(v) }
 func I64(name string) int64  { v, _ := strconv.ParseInt(next(name, "i64"), 10, 64); return v }
